@@ -49,33 +49,73 @@ Section Poly.
   Proof. unfold tinv, tpd, sig_time_pd. intros ->. reflexivity. Qed.
 
   (* every source block is the density normalised with the S of ITS profile *)
-  Theorem calc_pd_spec ivs tol st rows times :
+  Lemma calc_loop_spec ivs tol st rows times :
     tinv N ivs st ->
-    fst (calc_pd N ivs tol st rows times) = calc_spec N ivs tol (fst st) rows times /\
-    tinv N ivs (snd (calc_pd N ivs tol st rows times)).
+    fst (calc_loop N ivs tol st rows times) = calc_spec N ivs tol (fst st) rows times /\
+    tinv N ivs (snd (calc_loop N ivs tol st rows times)) /\
+    fst (snd (calc_loop N ivs tol st rows times))
+      = rows_profile N tol (fst st) (firstn (length times) rows).
   Proof.
     revert st times. induction rows as [|r rs IH]; intros st times Hinv.
-    - cbn. split; [reflexivity | exact Hinv].
-    - destruct times as [|ts tss]; [cbn; split; [reflexivity | exact Hinv]|].
-      cbn [calc_pd calc_spec]. cbv zeta.
+    - cbn. rewrite firstn_nil. repeat split; [exact Hinv].
+    - destruct times as [|ts tss]; [cbn; repeat split; exact Hinv|].
+      cbn [calc_loop calc_spec length firstn]. cbv zeta.
       pose proof (tstep_inv ivs tol st r Hinv) as Hinv'.
-      destruct (IH (tstep N ivs tol st r) tss Hinv') as [I1 I2].
-      destruct (calc_pd N ivs tol (tstep N ivs tol st r) rs tss) as [out stf] eqn:E.
-      cbn [fst snd] in *. split; [|exact I2].
-      rewrite I1, tstep_fst. f_equal.
-      apply map_ext. intros t. rewrite tpd_sig by exact Hinv'. rewrite tstep_fst. reflexivity.
+      destruct (IH (tstep N ivs tol st r) tss Hinv') as (I1 & I2 & I3).
+      destruct (calc_loop N ivs tol (tstep N ivs tol st r) rs tss) as [out stf] eqn:E.
+      cbn [fst snd] in *. split; [|split; [exact I2|]].
+      + rewrite I1, tstep_fst. f_equal.
+        apply map_ext. intros t. rewrite tpd_sig by exact Hinv'. rewrite tstep_fst. reflexivity.
+      + rewrite I3, tstep_fst. reflexivity.
   Qed.
 
-  (* ... and this stays true over any history of get_pd calls on one object *)
-  Theorem calc_calls_inv ivs tol st calls :
-    tinv N ivs st -> tinv N ivs (snd (calc_calls N ivs tol st calls)).
+  (* _calculate_pd refreshes S first, so this holds from ANY state, stale or not *)
+  Theorem calc_pd_spec ivs tol st rows times :
+    fst (calc_pd N ivs tol st rows times) = calc_spec N ivs tol (fst st) rows times /\
+    tinv N ivs (snd (calc_pd N ivs tol st rows times)) /\
+    fst (snd (calc_pd N ivs tol st rows times))
+      = rows_profile N tol (fst st) (firstn (length times) rows).
   Proof.
-    revert st. induction calls as [|[rows times] cs IH]; intros st Hinv; [exact Hinv|].
+    unfold calc_pd.
+    exact (calc_loop_spec ivs tol (fst st, S_of N ivs (fst st)) rows times eq_refl).
+  Qed.
+
+  (* ... and over any history of get_pd calls on one object *)
+  Theorem calc_calls_inv ivs tol st calls :
+    calls <> [] -> tinv N ivs (snd (calc_calls N ivs tol st calls)).
+  Proof.
+    revert st. induction calls as [|[rows times] cs IH]; intros st Hne; [contradiction|].
     cbn [calc_calls].
-    destruct (calc_pd_spec ivs tol st rows times Hinv) as [_ I2].
+    destruct (calc_pd_spec ivs tol st rows times) as (_ & I2 & _).
     destruct (calc_pd N ivs tol st rows times) as [o st'] eqn:E. cbn [snd] in I2.
-    specialize (IH st' I2).
-    destruct (calc_calls N ivs tol st' cs) as [os stf]. exact IH.
+    destruct cs as [|c cs'].
+    - cbn. exact I2.
+    - assert (Hne' : c :: cs' <> []) by discriminate.
+      specialize (IH st' Hne').
+      destruct (calc_calls N ivs tol st' (c :: cs')) as [os stf]. exact IH.
+  Qed.
+
+  (* a TimePDF object under its public operations and outside changes of the
+     live time / the shared profile: what it returns depends on the CURRENT
+     live time and profile only, whatever the cached S was *)
+  Theorem orun_spec tol o ops :
+    snd (orun N tol o ops) = spec_run N tol (o_ivs o, o_prof o) ops.
+  Proof.
+    revert o. induction ops as [|op r IH]; intros o; [reflexivity|].
+    cbn [orun spec_run].
+    destruct (ostep N tol o op) as [o' out] eqn:E.
+    assert (Hs : spec_step N tol (o_ivs o, o_prof o) op = ((o_ivs o', o_prof o'), out)).
+    { destruct op; cbn [ostep spec_step] in *.
+      - injection E as <- <-. reflexivity.
+      - injection E as <- <-. reflexivity.
+      - injection E as <- <-. reflexivity.
+      - injection E as <- <-. reflexivity.
+      - destruct (calc_pd_spec (o_ivs o) tol (o_prof o, o_S o) rows times) as (I1 & _ & I3).
+        destruct (calc_pd N (o_ivs o) tol (o_prof o, o_S o) rows times) as [out' st'].
+        cbn [fst snd] in *. injection E as <- <-. cbn [o_ivs o_prof]. rewrite I1, I3. reflexivity.
+      - injection E as <- <-. reflexivity. }
+    rewrite Hs. specialize (IH o').
+    destruct (orun N tol o' r) as [of outs]. cbn [snd] in *. rewrite IH. reflexivity.
   Qed.
 End Poly.
 
@@ -198,7 +238,7 @@ Section RowsR.
     = map (fun rt => map (sig_time_pd N ivs (row_profile tol p (fst rt))) (snd rt)) (combine rows times).
   Proof.
     intros Hc Hlen.
-    destruct (calc_pd_spec N ivs tol (tinit N ivs p) rows times (tinit_inv N ivs p)) as [-> _].
+    destruct (calc_pd_spec N ivs tol (tinit N ivs p) rows times) as (-> & _).
     apply calc_spec_rows; assumption.
   Qed.
 
